@@ -1,0 +1,48 @@
+//go:build verif
+
+package verifhook
+
+import "sync/atomic"
+
+// PointFunc is called at named suspension points (between critical sections).
+type PointFunc func(name string)
+
+// EventFunc is called with state snapshots taken under the owner's own lock.
+type EventFunc func(kind string, id uintptr, a, b, c int64)
+
+var (
+	point atomic.Pointer[PointFunc]
+	event atomic.Pointer[EventFunc]
+)
+
+// SetPoint installs (or with nil removes) the suspension-point handler.
+func SetPoint(f PointFunc) {
+	if f == nil {
+		point.Store(nil)
+		return
+	}
+	point.Store(&f)
+}
+
+// SetEvent installs (or with nil removes) the event handler.
+func SetEvent(f EventFunc) {
+	if f == nil {
+		event.Store(nil)
+		return
+	}
+	event.Store(&f)
+}
+
+// Point invokes the suspension-point handler, if any.
+func Point(name string) {
+	if f := point.Load(); f != nil {
+		(*f)(name)
+	}
+}
+
+// Event invokes the event handler, if any.
+func Event(kind string, id uintptr, a, b, c int64) {
+	if f := event.Load(); f != nil {
+		(*f)(kind, id, a, b, c)
+	}
+}
